@@ -98,6 +98,27 @@ Integrate(kx, ky) ==
     /\ Degree <= MaxDeg
     /\ Mutate([op |-> "integrate", kx |-> kx, ky |-> ky], IntegrateX(ends, pieces, kx, ky))
 
+\* The fields of Piecewise and Segment are public: between two calls a caller may move a breakpoint or drop the last
+\* piece IN PLACE (same object, same buffer).  Nothing the library computed earlier may survive such an edit: every
+\* operation is a function of the object as it is now.  (Only edits that keep the object well-formed are modelled;
+\* while a handle or a batch borrows the object Rust forbids them.)
+EditEnd(i, e) ==
+    /\ NoHandle
+    /\ i \in 1..Len(ends)
+    /\ (i > 1 => Leq(ends[i - 1], e)) /\ (i < Len(ends) => Leq(e, ends[i + 1]))
+    /\ e # ends[i]
+    /\ ends' = [ends EXCEPT ![i] = e]
+    /\ before' = Obj
+    /\ lastop' = [op |-> "editend", i |-> i, e |-> e]
+    /\ UNCHANGED << pieces, handle, off, last, vprev, vlast >>
+PopPiece ==
+    /\ NoHandle
+    /\ Len(ends) > 1
+    /\ ends' = SubSeq(ends, 1, Len(ends) - 1) /\ pieces' = SubSeq(pieces, 1, Len(pieces) - 1)
+    /\ before' = Obj
+    /\ lastop' = [op |-> "pop"]
+    /\ UNCHANGED << handle, off, last, vprev, vlast >>
+
 \* f := f + g or f - g for another well-formed object g of the same degree
 Combine(g, sub) ==
     /\ NoHandle
